@@ -144,7 +144,7 @@ class Hist:
         op = rng.choice(['ent', 'ent', 'brush_ent', 'solid', 'side', 'vis', 'group', 'copy_ent', 'copy_ent_other', 'copy_solid',
                          'remove_ent', 'remove_ent', 'drop', 'drop', 'readd', 'readd', 'remove_brush', 'nodeid', 'nodeid_change',
                          'fixup', 'fixup_copy', 'parse_dups', 'collapse', 'copy_side', 'copy_vis', 'copy_group', 'failed_create', 'remove_again', 'prism',
-                         'add_again', 'replace_side', 'add_ents_nodes'])
+                         'add_again', 'replace_side', 'add_ents_nodes', 'move_brushes'])
         try:
             if op == 'ent':
                 d = rng.choice(IDS)
@@ -285,6 +285,36 @@ class Hist:
                     vmf.add_brush(o)
                 self.log.append(f'{op} map{mi} removed {type(o).__name__} id={o.id} added again')
                 self.nontrivial = True
+            elif op == 'move_brushes':
+                # the brushes of a brush entity are handed to an owner that outlives it (the world, or another entity), the
+                # entity is removed and collected, and new brushes are made: the moved brushes still own their IDs
+                cands = [e for e in vmf.entities if e.solids]
+                if not cands:
+                    return
+                e = rng.choice(cands)
+                moved = list(e.solids)
+                others = [o for o in vmf.entities if o is not e and o.solids]
+                if others and rng.random() < 0.4:
+                    rng.choice(others).solids.extend(moved)
+                    dest = 'another entity'
+                else:
+                    vmf.add_brushes(moved)
+                    dest = 'the world'
+                if rng.random() < 0.5:
+                    e.solids.clear()
+                (e.remove if rng.random() < 0.5 else (lambda: vmf.remove_ent(e)))()
+                eid = e.id
+                del e, cands
+                gc.collect()
+                fresh = [vmf.make_prism(Vec(0, 0, 0), Vec(4, 4, 4)).solid for _ in range(len(moved) + 1)]
+                if rng.random() < 0.5:
+                    vmf.add_brushes(fresh)
+                else:
+                    vmf.add_ent(Entity(vmf, keys={'classname': 'func_detail'}, solids=fresh))
+                self.run.count('brushes_moved_out_of_a_collected_entity', len(moved))
+                self.released = self.nontrivial = True
+                self.log.append(f'{op} map{mi}: {len(moved)} brushes of entity {eid} moved to {dest}, entity removed and collected, '
+                                f'{len(fresh)} new brushes made')
             elif op == 'add_again':
                 # an entity that is in the map already is added once more: it must not end up in the file twice
                 if not vmf.entities:
@@ -530,4 +560,4 @@ def replay(run, data) -> None:
 
 
 # (kept at the end of the file so that the text above stays the description the check was first built to)
-RULE += ' ' + 'Later additions: entities added again (the file must not hold them twice); faces replaced / deleted in live brushes; add_ents() of detached node entities; the node-ID key addressed in the spelling it is stored under (NodeID, NODEID); fixup indexes 0, -1, 100 and replace00 / replace-1 / replace100 in parsed documents; group, visgroup and replaceNN lines in the text scan.'
+RULE += ' ' + 'Later additions: entities added again (the file must not hold them twice); faces replaced / deleted in live brushes; add_ents() of detached node entities; the node-ID key addressed in the spelling it is stored under (NodeID, NODEID); fixup indexes 0, -1, 100 and replace00 / replace-1 / replace100 in parsed documents; group, visgroup and replaceNN lines in the text scan. Brushes are moved out of a brush entity into the world or another entity before the entity is removed and collected; brushes made afterwards must not receive the IDs of the moved ones.'
